@@ -1150,8 +1150,44 @@ func entryPointReuseMonitor(o *out, r *rng, n int) {
 	}
 }
 
+// keptStringsMonitor: strings obtained from text attributes (String()) are values: they do not change when the
+// Message they were read from is used for the next datagram or re-built
+func keptStringsMonitor(o *out, r *rng, n int) {
+	for i := 0; i < n; i++ {
+		user, realm := string(r.bytes(1+r.intn(20))), string(r.bytes(1+r.intn(20)))
+		src := new(stun.Message)
+		_ = src.Build(stun.BindingRequest, stun.TransactionID, stun.NewUsername(user), stun.NewRealm(realm), stun.NewSoftware(user+realm), stun.NewNonce(realm))
+		m := new(stun.Message)
+		if stun.Decode(src.Raw, m) != nil {
+			continue
+		}
+		var u stun.Username
+		var re stun.Realm
+		var sw stun.Software
+		var no stun.Nonce
+		_, _, _, _ = u.GetFrom(m), re.GetFrom(m), sw.GetFrom(m), no.GetFrom(m)
+		kept := []string{u.String(), re.String(), sw.String(), no.String()}
+		want := []string{user, realm, user + realm, realm}
+		other := new(stun.Message)
+		_ = other.Build(stun.BindingSuccess, stun.TransactionID, stun.NewUsername(string(bytes.Repeat([]byte{'Z'}, 60))), stun.NewSoftware(string(bytes.Repeat([]byte{'Y'}, 60))))
+		if i%2 == 0 {
+			_ = stun.Decode(other.Raw, m)
+		} else {
+			_ = m.Build(stun.BindingSuccess, stun.TransactionID, stun.NewUsername(string(bytes.Repeat([]byte{'Z'}, 60))), stun.NewRealm(string(bytes.Repeat([]byte{'W'}, 60))))
+		}
+		for k := range kept {
+			if kept[k] != want[k] {
+				o.failFor("C08", "kept-string-changed", fmt.Sprintf("x a string read from a text attribute (%q) became %q after the Message was reused", want[k], kept[k]))
+				break
+			}
+		}
+		o.count("kept-strings")
+	}
+}
+
 // cloneMarshalMonitor: results of CloneTo and MarshalBinary are unaffected by later changes to the source.
 func cloneMarshalMonitor(o *out, r *rng, n int) {
+	keptStringsMonitor(o, r, n/2+1)
 	for i := 0; i < n; i++ {
 		data := r.validMessage(6, 80)
 		src := new(stun.Message)
